@@ -166,6 +166,26 @@ struct Run{
     if(alloc_classify(base,(size_t)stride*nx*sizeof(double),&bid,&ub,&off)!=RANGE_LIB_BLOCK){ c.violation("C15","views:storage",when,"the stored state does not lie in a live block"); return; }
   }
 
+  // an Evolve that ended in an exception: clock and stored state still belong together - either both as at entry, or both as the stepper was handed
+  // them at the start of its last (failed) step; anything else makes a later Evolve integrate from a time the state is not at
+  bool check_after_failure(double t_before,const std::vector<double>& before,const char* vprop){
+    unsigned stride=nsun*nsun*nrhos+nsc; size_t n=(size_t)stride*nx; const double* now=live->rho_ptr(0,0); double t_now=live->Get_t();
+    bool as_entry=(t_now==t_before && before.size()==n && memcmp(&before[0],now,n*sizeof(double))==0);
+    bool as_last=(c.have_last_apply && t_now==c.last_apply_t && c.last_apply_y.size()==n && memcmp(&c.last_apply_y[0],now,n*sizeof(double))==0);
+    c.ctr->add("probe_clock_and_state_after_failed_evolve");
+    if(as_entry||as_last) return true;
+    bool state_entry=(before.size()==n && memcmp(&before[0],now,n*sizeof(double))==0), state_last=(c.have_last_apply && c.last_apply_y.size()==n && memcmp(&c.last_apply_y[0],now,n*sizeof(double))==0);
+    if((state_entry && !state_last && c.have_last_apply && t_now==c.last_apply_t && c.last_apply_t!=t_before) || (state_last && !state_entry && t_now==t_before && c.last_apply_t!=t_before)){
+      char b[260]; snprintf(b,sizeof b,"after an Evolve that ended in \"%s\" Get_t() shows %.17g while the stored state is the one of t=%.17g: a later Evolve would integrate from a time the state is not at",g_what.c_str(),t_now,state_entry?t_before:c.last_apply_t);
+      c.violation(vprop,"clock:state-mismatch-after-failure","evolve",b); return false;
+    }
+    // anything else is not judged. In particular GSL 2.7's fixed-step evolve advances *t by one step before it checks the error and restores y only,
+    // so after a rejected fixed step the clock SQuIDS hands to GSL is one step ahead of the restored state: GSL's doing (its documentation promises
+    // "t and y contain the values from last successful step"), present on the pinned tree, and not something a property of SQuIDS speaks about
+    c.ctr->add("probe_after_failure_pair_not_recognised");
+    return true;
+  }
+
   void op_evolve(const Json& o){
     double dt=o["dt"].as_num(0.5); if(!(dt>=0)) dt=0; if(dt>20) dt=20;
     // a sanitizer report inside Evolve belongs to the property being checked when that is C04/C10 (the defect shows up as a memory error first)
@@ -178,8 +198,8 @@ struct Run{
     sc.reject=saved.reject&&!hmin_raised?saved.reject:0; 
     bool numerics=(any_override<0)?c.sw.any():(any_override==1);
     std::vector<double> before;
-    if(!numerics){ unsigned stride=nsun*nsun*nrhos+nsc; before.assign(live->rho_ptr(0,0),live->rho_ptr(0,0)+stride*nx); }
-    double t_before=live->Get_t();
+    { unsigned stride=nsun*nsun*nrhos+nsc; before.assign(live->rho_ptr(0,0),live->rho_ptr(0,0)+stride*nx); }
+    double t_before=live->Get_t(); c.have_last_apply=false;
     c.log.clear(); c.rhs_evals=0; c.napply=0; c.nseen=0; c.distinct_inputs=0; c.rejections_fired=0; c.failures_fired=0;
     c.reject_budget=sc.reject; c.fail_budget=sc.fail; g_last_apply_y=0;
     c.toggle_at=(numerics&&o.has("pre_toggle"))?(int)std::max(1LL,std::min(12LL,o["pre_toggle"]["at"].as_int(1))):0; c.toggle_which=(int)(o.has("pre_toggle")?o["pre_toggle"]["which"].as_int(0):0); c.pre_count=0; c.toggled=false;
@@ -198,6 +218,7 @@ struct Run{
     shp("evolve:"+sc.name+(sc.adaptive?":a":":f")+(sc.is_sim()?":t"+std::to_string(sc.tableau)+"b"+std::to_string(sc.bufmode)+(sc.dydt_in?"d":""):"")); shp((long)(c.sw.coh|c.sw.noncoh<<1|c.sw.other<<2|c.sw.gs<<3|c.sw.os<<4)); shp((long)c.distinct_inputs);
     if(!c.out->ok) return;
     std::string evprop=(prop=="C10")?"C10":"C04";
+    if(rc!=CALL_OK && !check_after_failure(t_before,before,evprop.c_str())) return;
     if(rc!=CALL_OK && hmin_raised && g_what.find("not making progress")!=std::string::npos){
       // with a raised lower step limit GSL may legitimately give up; the run is resynchronised by re-initialising the same configuration
       c.ctr->add("probe_gsl_gave_up_at_raised_hmin");
@@ -281,8 +302,10 @@ struct Run{
     apply_stepper(live);
     c.log.clear(); c.rhs_evals=0; c.napply=0; c.nseen=0;
     c.hard_fail_at=1+(long)(o["at"].as_int(0)%4);
+    std::vector<double> before0; { unsigned stride=nsun*nsun*nrhos+nsc; before0.assign(live->rho_ptr(0,0),live->rho_ptr(0,0)+stride*nx); } double t_before0=live->Get_t(); c.have_last_apply=false;
     int rc=lib_call([&]{ live->Evolve(0.5); });
     bool fired=(c.hard_fail_at<0); c.hard_fail_at=0;
+    if(fired && rc==CALL_EXCEPTION && !check_after_failure(t_before0,before0,prop=="C10"?"C10":(prop=="C04"?"C04":"C10"))){ sc=keep; need_apply=true; return; }
     sc=keep; need_apply=true;
     shp("evolve_fail");
     if(fired){ c.ctr->add("fault_stepper_hard_error_fired"); nontrivial=true;
